@@ -22,6 +22,7 @@
 #include <headerssync.h>
 #include <pow.h>
 #include <primitives/block.h>
+#include <test/util/random.h>
 #include <test/util/setup_common.h>
 #include <uint256.h>
 #include <util/chaintype.h>
@@ -336,6 +337,8 @@ int main(int argc, char** argv)
     if (argc < 3) { std::cerr << "usage: headerssync replay <behaviours.ndjson> | drive <seed> <sessions>\n"; return 2; }
     const std::string mode = argv[1];
     auto setup = MakeNoLogFileContext<const BasicTestingSetup>(ChainType::REGTEST);
+    // determinism: the commitment offsets and hasher salts drawn by the HeadersSyncState constructor repeat from run to run
+    SeedRandomStateForTest(SeedRand::ZEROS);
     if (mode == "replay") return ReplayBehaviours(argv[2]);
     if (mode == "drive") return Drive(unsigned(std::atoi(argv[2])), argc > 3 ? std::atoi(argv[3]) : 100);
     std::cerr << "unknown mode\n";
